@@ -625,12 +625,27 @@ def many_chunks_sessions(g, sidp):
             yield [reset(f"{sidp}/{n}/{tail}"), {"op": "parse", "kind": "sdes", "b": b}, {"op": "parse_all", "b": b}]
 
 
+def Variant_of(pt):
+    return {200: "sr", 201: "rr", 202: "sdes", 203: "bye", 204: "app", 205: "tfb", 206: "pfb"}.get(pt, "unknown")
+
+
 def reparse_sessions(g, n, sidp):
     """a datagram is parsed, then a buffer of the SAME length (allocated right after the first was freed) with a
     defect somewhere: nothing remembered from the first parse may decide the second"""
     r = g.r
     T = [[0x80, 203, 0, 0], [0x81, 203, 0, 1, 1, 2, 3, 4], [0x80, 201, 0, 1, 9, 9, 9, 9], [0x80, 77, 0, 1, 5, 6, 7, 8]]
+    ODD = [[0x40, 77, 0, 1, 5, 6, 7, 8], [0xc0, 242, 0, 0], [0x00, 0, 0, 0], [0x40, 203, 0, 0]]     # other versions
     for i in range(n):
+        # a tile of another version (known or unknown type) in the middle of a datagram: iteration stops there
+        if i % 4 == 0:
+            k2 = r.randrange(1, 4)
+            b2 = []
+            for _ in range(k2):
+                b2 += r.choice(T)
+            b2 += r.choice(ODD)
+            for _ in range(r.randrange(0, 3)):
+                b2 += r.choice(T)
+            yield [reset(f"{sidp}/odd/{i}"), {"op": "cparse", "b": b2}] + [{"op": "cnext"}] * (k2 + 3)
         k = r.choice([2, 3, 5, 16, 17, 20, 24, 40])
         b = []
         for _ in range(k):
@@ -676,6 +691,20 @@ def reparse_sessions(g, n, sidp):
         p2 = list(p1)
         p2[r.choice([0, 1, 3])] ^= r.choice([1, 0x40, 0x80])
         yield [reset(f"{sidp}/pkt/{i}"), {"op": "parse_all", "b": p1}, {"op": "parse_all", "b": p2}, {"op": "parse_all", "b": p1}]
+        # a well-formed PADDED packet, then the same bytes with another final byte (zero, too large, not a multiple
+        # of 4) or another body byte: same header, same length - and the first one again
+        PADDED = [[0xa1, 203, 0, 2, 1, 2, 3, 4, 0, 0, 0, 4], [0xa0, 201, 0, 3, 9, 9, 9, 9, 0, 0, 0, 0, 0, 0, 0, 8],
+                  [0xa2, 204, 0, 4, 1, 2, 3, 4, 65, 66, 67, 68, 7, 7, 7, 7, 0, 0, 0, 4], [0xa0, 77, 0, 2, 5, 6, 7, 8, 0, 0, 0, 4],
+                  [0xa1, 202, 0, 3, 0, 0, 0, 1, 1, 1, 65, 0, 0, 0, 0, 4], [0xa1, 205, 0, 4, 0, 0, 0, 1, 0, 0, 0, 2, 0, 7, 0, 1, 0, 0, 0, 4]]
+        q1 = r.choice(PADDED)
+        q2 = list(q1)
+        if r.random() < 0.7:
+            q2[-1] = r.choice([0, 0, 1, 3, 8, 12, 255])
+        else:
+            q2[r.randrange(4, len(q2) - 1)] ^= r.choice([1, 0x80])
+        opn = r.choice(["parse_all", "parse_all", "kind"])
+        mk = (lambda b: {"op": "parse_all", "b": b}) if opn == "parse_all" else (lambda b: {"op": "parse", "kind": Variant_of(b[1]), "b": b})
+        yield [reset(f"{sidp}/padpkt/{i}"), mk(q1), mk(q2), mk(q1), mk(q2)]
 
 
 def nack_pair_sessions(g, n, sidp):
